@@ -209,18 +209,8 @@ func checkReparse(bad func(string, ...any), ts *schema.Schema) {
 // rawIndex returns the stored records (raw bytes, sorted) read through index
 // i and an ordering problem.
 func rawIndex(rt *db19.ReadTran, ts *schema.Schema, i int) ([]string, string) {
-	it := rt.IndexIter(ts.Table, i)
-	var recs []string
-	for it.Next(rt); !it.Eof(); it.Next(rt) {
-		_, off := it.Cur()
-		recs = append(recs, string(rt.GetRecord(off)))
-		if len(recs) > 100000 {
-			return recs, "RUNAWAY ITERATION"
-		}
-	}
-	sort.Strings(recs)
-	_, _, problem := readIndex(rt, ts, i)
-	return recs, problem
+	_, raw, _, problem := readIndexRaw(rt, ts, i, true)
+	return raw, problem
 }
 
 // TableRecords returns, per table, the sorted multiset of stored records
